@@ -27,6 +27,40 @@ def corpus_programs():
     return out
 
 
+def generated_programs(outdir, seed, n_per_profile, profiles=None):
+    """Programs from the E5 generator (build/ocaml/eval/run gen): (id, path, cwd) of the original
+    spelling of each case, written as separate files under outdir."""
+    ok, log = common.ocaml_build("eval")
+    run = os.path.join(common.BUILD, "ocaml", "eval", "run")
+    if not ok or not os.path.exists(run):
+        return []
+    if profiles is None:
+        rc, so, se = common.sh([run, "profiles"], timeout=60)
+        profiles = [p for p in so.split() if p] or ["mix"]
+    res = []
+    for i, prof in enumerate(profiles):
+        d = os.path.join(outdir, "gen_" + prof)
+        os.makedirs(d, exist_ok=True)
+        rc, so, se = common.sh([run, "gen", str(seed * 131 + i), str(n_per_profile), d, prof], timeout=600)
+        for f in glob.glob(os.path.join(d, "batch_*.txt")):
+            cur, buf = None, []
+
+            def flush():
+                if cur and cur.endswith(".o"):
+                    path = os.path.join(d, cur.replace("/", "_") + ".nev")
+                    with open(path, "w") as o:
+                        o.write("".join(buf))
+                    res.append(("gen/" + cur, path, d))
+            for line in open(f, errors="replace"):
+                if line.startswith("@@@ "):
+                    flush()
+                    cur, buf = line.split()[1], []
+                else:
+                    buf.append(line)
+            flush()
+    return res
+
+
 class VmTools:
     def __init__(self, variant="plain"):
         self.lib = common.repobuild(variant)
